@@ -127,6 +127,9 @@ func runUDFPeer(x *core.Ctx) {
 	if hi > len(names) {
 		hi = len(names)
 	}
+	if lo > hi {
+		lo = hi // the case list is cut in fixed chunks; the last ones may lie beyond the streams generated
+	}
 	before := settle()
 	ran := 0
 	for _, name := range names[lo:hi] {
